@@ -87,6 +87,8 @@ pub enum Mtime {
     At(u64, u32),
     /// This many seconds after "now" at entity construction (plus nanos).
     Future(u64, u32),
+    /// Seconds and nanoseconds *before* the epoch (files do carry such times).
+    Before(u64, u32),
 }
 
 #[derive(Clone, Copy, Debug, PartialEq, Eq, Serialize, Deserialize)]
@@ -189,6 +191,7 @@ impl ModelEntity {
         let mtime = match spec.mtime {
             Mtime::None => None,
             Mtime::At(s, n) => Some(UNIX_EPOCH + Duration::new(s, n)),
+            Mtime::Before(s, n) => Some(UNIX_EPOCH - Duration::new(s, n)),
             Mtime::Future(s, n) => {
                 let now = SystemTime::now().duration_since(UNIX_EPOCH).unwrap();
                 Some(UNIX_EPOCH + Duration::new(now.as_secs() + s, n))
